@@ -45,4 +45,14 @@ CHECKS['C16'] = {
   'technique': 'guard dominance, symbolic extent comparison (polynomial normal form), accessor inlining, delegation table',
 }
 
+CHECKS['C19'] = {
+  'text': 'Decides where objects come into being and where memory is released: every header_init call and macro expansion '
+          'stamps the true (type, allocation class); header/object pointer arithmetic agrees across header, header_init, '
+          'alloc_by, dealloc and type_of; iter_type/key_type/val_type report the stamped field; allocation-class refusals '
+          'dominate every free/realloc of String and Tuple buffers and the free in dealloc. Thorough tier repeats the layout '
+          'rules under the other header configurations.',
+  'note': ASSUME + '; user code does not forge object headers',
+  'technique': 'call-site table over resolved header_init calls, macro witnesses, symbolic layout comparison, guard dominance',
+}
+
 NOT_APPLICABLE = {}
